@@ -4,3 +4,4 @@ pub mod inst;
 pub mod rfc2822;
 pub mod rfc3339;
 pub mod strftime;
+pub mod zone;
